@@ -180,7 +180,7 @@ func (p *Parser) Enter(in ast.Node) (ast.Node, bool) {
 				}
 
 			case ast.ConstraintKey, ast.ConstraintIndex:
-				indexType := model.IndexTypeBtree
+				indexType := model.IndexTypeInvalid
 				if tab.Constraints[i].Option != nil {
 					indexType = tab.Constraints[i].Option.Tp
 				}
@@ -196,7 +196,7 @@ func (p *Parser) Enter(in ast.Node) (ast.Node, bool) {
 				})
 
 			case ast.ConstraintUniq, ast.ConstraintUniqKey, ast.ConstraintUniqIndex:
-				indexType := model.IndexTypeBtree
+				indexType := model.IndexTypeInvalid
 				if tab.Constraints[i].Option != nil {
 					indexType = tab.Constraints[i].Option.Tp
 				}
